@@ -971,9 +971,9 @@ def main(tier, seed, replay=None):
         scens = [json.load(open(replay))["scenario"]]
     else:
         scens = load_corpus() + [scen_tags(), scen_converters(), scen_snapshot()]      # corpus/C12: merge-shadow, mark-text, convert-job
-        nrand = 8 if tier == "quick" else 60
+        nrand = 8 if tier == "quick" else 40
         scens += [gen_scenario(rng, k) for k in range(nrand)]
-    cuts = 2 if tier == "quick" else 6
+    cuts = 2 if tier == "quick" else 4
     nviol, nstates, kinds, known_hits, examined = 0, 0, {}, [], 0
     notes, samples = [], []
     reported = set()
@@ -993,7 +993,7 @@ def main(tier, seed, replay=None):
     for (scen, (base, evs, note)) in zip(tscens, run_traced(tscens)):
         if note:
             notes.append("%s: %s" % (scen["name"], note))
-        metas, states = trace_states(base, evs, rng, 110 if tier == "quick" else 400)
+        metas, states = trace_states(base, evs, rng, 110 if tier == "quick" else 250)
         if not states and not note:
             notes.append("%s: the system call trace yielded no file operation (strace output not understood)" % scen["name"])
         per.append((scen, base, metas, states))
@@ -1013,7 +1013,7 @@ def main(tier, seed, replay=None):
                 if ">" in flow:
                     c, sv = flow.split(">")
                     s["cont"] = {"c": c, "s": sv, "t": tmax + 1, "data": "ZZ", "id": int(ids[0])}
-            s["deep"] = (tier != "quick") or s["kind"] in ("copy:idle", "copy:gate import.done", "copy:gate convert.done", "copy:gate convert.start", "copy:gate merge.done", "torn-cidx", "capture-being-written") \
+            s["deep"] = (tier != "quick" and rng.random() < 0.3) or s["kind"] in ("copy:idle", "copy:gate import.done", "copy:gate convert.done", "copy:gate convert.start", "copy:gate merge.done", "torn-cidx", "capture-being-written") \
                 or bool(s.get("cidx")) or rng.random() < 0.1
             if not s["deep"]:
                 s.pop("cont", None)
